@@ -1,4 +1,4 @@
-import Pyrtma.Proofs.ManagerStatsHist
+import Pyrtma.Proofs.ManagerStatsRun
 /-!
 # C18 — manager traffic statistics are exact
 
@@ -192,6 +192,46 @@ theorem spec_timing_clause_passes_on_model (cfg : Cfg) (ok : CfgOK cfg) (hfuel :
       Spec.roundPre cfg (mrPair cfg rs).2 r (stepR cfg (mrPair cfg rs).1 r).out :=
   timing_round ok hfuel (rinv_all ok hfuel hna hord rs hrs) hna hord r hr hnw
 
+/-- **TRAFFIC link theorem.**  After any history `rs`, in the next round `r`, the MESSAGE_TRAFFIC clause of `Spec.tail` (it
+runs on the abstract state after the TIMING clause and its reset) — when the period has elapsed: (0) if a client type
+was tallied in the interval, every live subscriber of MESSAGE_TRAFFIC that is writable or a logger, not failing and not
+closed in the stretch got a report; and for every connection that got MESSAGE_TRAFFIC frames in the round's last stretch:
+(1) the sub-sequence numbers are 1, 2, …, (2) all carry the current interval number, (3) all have exactly
+`MESSAGE_TRAFFIC_SIZE` slots, (4) no type is reported twice, (5) every client type the Spec tallied is reported with its
+tally modulo 2¹⁶, (6) no client type is reported that was not tallied, (7) for every manager type the reported count is at
+least what that observer alone received — adds **no error** on the model's own events.  `0 < MESSAGE_TRAFFIC_SIZE` and "-1
+(the filler) is no manager type" hold of every configuration (examples below). -/
+theorem spec_traffic_clause_passes_on_model (cfg : Cfg) (ok : CfgOK cfg) (hfuel : cfg.fuel = 0) (hna : MgrNotAll cfg)
+    (hord : OrderGood cfg) (hsz : 0 < cfg.trafficSize) (hneg : mgrType cfg (-1) = false)
+    (rs : List Round) (r : Round) (hrs : ∀ r' ∈ rs, RoundOK r') (hr : RoundOK r)
+    (hnw : NoWrap cfg (stepR cfg (mrPair cfg rs).1 r).hist) :
+    let a7 := Spec.roundPre cfg (mrPair cfg rs).2 r (stepR cfg (mrPair cfg rs).1 r).out
+    Spec.trafficPart cfg (Spec.timingReset cfg a7 a7) (Spec.lastEvs (stepR cfg (mrPair cfg rs).1 r).out) =
+      Spec.timingReset cfg a7 a7 :=
+  traffic_round ok hfuel (rinv_all ok hfuel hna hord rs hrs) hna hord hsz hneg r hr hnw _ rfl
+
+/-- **One round of the Spec adds no C18 error** on the model's own events of that round, after any history: the two link
+theorems put together along `Spec.round = Spec.tail ∘ Spec.roundPre` (no other clause of `Spec.round` files under C18). -/
+theorem spec_round_adds_no_c18_error_on_model (cfg : Cfg) (ok : CfgOK cfg) (hfuel : cfg.fuel = 0) (hna : MgrNotAll cfg)
+    (hord : OrderGood cfg) (hsz : 0 < cfg.trafficSize) (hneg : mgrType cfg (-1) = false)
+    (rs : List Round) (r : Round) (hrs : ∀ r' ∈ rs, RoundOK r') (hr : RoundOK r)
+    (hnw : NoWrap cfg (stepR cfg (mrPair cfg rs).1 r).hist) :
+    (Spec.round cfg (mrPair cfg rs).2 r (stepR cfg (mrPair cfg rs).1 r).out).errs.filter (·.1 == "C18") =
+      (mrPair cfg rs).2.errs.filter (·.1 == "C18") :=
+  round_e18 ok hfuel (rinv_all ok hfuel hna hord rs hrs) hna hord hsz hneg r hr hnw
+
+/-- **The model passes the Spec's C18 clauses, for every history.**  The Spec, run the way `./check` runs it
+(`Spec.runSpec` on the per-round event logs the driver's `modelRun` produces, no crash), reports **no C18 error**, whatever
+the rounds — every TIMING and every MESSAGE_TRAFFIC clause, in every round, u16 wrap of client counters included.
+`NoWrap` of the final ghost history: fewer than 65536 manager-originated frames of any one manager type in the whole run
+(the Spec's lower-bound clause for manager types presupposes it; every generated case is far below). -/
+theorem spec_c18_clauses_pass_on_model_run (cfg : Cfg) (ok : CfgOK cfg) (hfuel : cfg.fuel = 0) (hna : MgrNotAll cfg)
+    (hord : OrderGood cfg) (hsz : 0 < cfg.trafficSize) (hneg : mgrType cfg (-1) = false)
+    (rs : List Round) (hrs : ∀ r ∈ rs, RoundOK r)
+    (hnw : NoWrap cfg (Pyrtma.Drv.Manager.modelRun cfg rs).2.hist) :
+    (Spec.runSpec cfg rs (Pyrtma.Drv.Manager.modelRun cfg rs).1 none).errs.filter (·.1 == "C18") = [] :=
+  runSpec_e18 ok hfuel hna hord hsz hneg rs hrs (by rw [← modelRun_state]; exact hnw)
+
 /-- the simulation behind the link theorems: after any history the Spec's abstract state agrees with the model state on
 the clocks, on who is alive, on id / pid / connected flag of every table entry, its tallies of client frames are exactly
 the client marks of the ghost history since the last report, and its per-observer tallies are lower bounds -/
@@ -222,6 +262,37 @@ example : NoWrap {} (stepR {} (mrPair {} exHist2).1 exLast).hist := by
 example : (Spec.sends (Spec.lastEvs (stepR {} (mrPair {} exHist2).1 exLast).out)).map (fun p => (p.1, p.2.2.mtype)) = [(3, 80)] ∧
     (Spec.roundPre {} (mrPair {} exHist2).2 exLast (stepR {} (mrPair {} exHist2).1 exLast).out).pubT = [(5000, 2)] := by
   decide +kernel
+
+/-! ### Non-vacuity of the TRAFFIC link theorem and of the whole-run theorem: in the history below module 3 subscribes to
+MESSAGE_TRAFFIC (type 30); in the last round both periods have elapsed, the Spec has tallied client type 5000 twice,
+considers module 3 owed the report, and module 3 gets it (one sub-message, interval number 1) -/
+example : 0 < ({} : Cfg).trafficSize ∧ mgrType {} (-1) = false := by decide
+def exHist3 : List Round :=
+  [{ accept := true }, { accept := true }, { accept := true },
+   { reads := [exConn 1 1 10, exConn 2 2 11, exConn 3 3 12], writable := [1, 2, 3] },
+   { reads := [exSub 1 4 136 19, exSub 2 5 33 0, exSub 3 6 30 0], writable := [1, 2, 3] },
+   { failSet := [(1, some .hdr)], reads := [{ uid := 2, h := { k := 7, mtype := 5000 } }], writable := [1, 2, 3] }]
+def exLastR : Round := { dt := 1100, writable := [1, 2, 3], reads := [{ uid := 2, h := { k := 8, mtype := 5000 } }] }
+example : (∀ r ∈ exHist3, RoundOK r) ∧ RoundOK exLastR := by decide
+example : NoWrap {} (stepR {} (mrPair {} exHist3).1 exLastR).hist := by
+  intro t _
+  have : (stepR {} (mrPair {} exHist3).1 exLastR).hist.length = 11 := by decide
+  exact Nat.lt_of_le_of_lt List.count_le_length (by omega)
+example :
+    let a7 := Spec.roundPre {} (mrPair {} exHist3).2 exLastR (stepR {} (mrPair {} exHist3).1 exLastR).out
+    let a9 := Spec.timingReset {} a7 a7
+    let evs := Spec.lastEvs (stepR {} (mrPair {} exHist3).1 exLastR).out
+    a9.now - a9.tTraffic > 1000 ∧ a9.pubR = [(5000, 2)] ∧ (owedOf {} a9 evs).map (·.uid) = [3] ∧
+    (trOf evs).map (fun row => (row.1, row.2.1, row.2.2.1)) = [(3, 1, 1)] := by
+  decide +kernel
+/-- the whole run of that history contains the report, and the hypotheses of `spec_c18_clauses_pass_on_model_run` hold -/
+example : (∀ r ∈ exHist3 ++ [exLastR], RoundOK r) ∧
+    ((Pyrtma.Drv.Manager.modelRun {} (exHist3 ++ [exLastR])).1.map (fun evs => (trOf evs).length)) = [0, 0, 0, 0, 0, 0, 0, 1] := by
+  decide +kernel
+example : NoWrap {} (Pyrtma.Drv.Manager.modelRun {} (exHist3 ++ [exLastR])).2.hist := by
+  intro t _
+  have : (Pyrtma.Drv.Manager.modelRun {} (exHist3 ++ [exLastR])).2.hist.length = 11 := by decide +kernel
+  exact Nat.lt_of_le_of_lt List.count_le_length (by omega)
 
 /-! ### Non-vacuity: with 4 slots per sub-message, 10 distinct types make three sub-messages of 4, 4 and 2 entries -/
 def exCfg : Cfg := { trafficSize := 4 }
